@@ -29,7 +29,7 @@ theorem signTests (x : ℝ) :
      first | exact Iff.rfl | grind)
 
 theorem ctorError_eq (e : ℝ) : Gen.ctorError e = e := by
-  simp only [Gen.ctorError, num_isZero, num_ofNat, Nat.cast_zero, decide_eq_true_eq]
+  simp only [Gen.ctorError, num_isZero, num_ofNat, Nat.cast_zero, decide_eq_true_eq] <;>
   first | rfl | (split_ifs <;> first | rfl | simp_all | linarith)
 
 theorem setErrNew_eq (v e : ℝ) : Gen.setErrNew v e = e ∧ Gen.dSetErrNew v e = e := by
@@ -43,9 +43,10 @@ theorem setRelNew_eq (v r : ℝ) :
 theorem errArrayBad_false {l : List ℝ} (h : Gen.errArrayBad l = false) : ∀ e ∈ l, 0 ≤ e := by
   intro e he
   simp only [Gen.errArrayBad, List.any_eq_false, List.all_eq_true, num_lt, num_le, num_ofNat,
-    Nat.cast_zero, decide_eq_true_eq, Bool.not_eq_true', decide_eq_false_iff_not] at h
+    Nat.cast_zero, decide_eq_true_eq, Bool.not_eq_true', Bool.not_eq_eq_eq_not, Bool.not_true,
+    Bool.not_false, decide_eq_false_iff_not] at h
   have := h e he
-  first | exact not_lt.mp this | linarith | grind
+  first | exact not_lt.mp this | exact this | linarith | grind
 
 theorem errArrayBad_true {l : List ℝ} {e : ℝ} (he : e ∈ l) (hn : e < 0) :
     Gen.errArrayBad l = true := by
@@ -83,6 +84,7 @@ theorem errCommon_mem {xs : List ℝ} (hx : xs ≠ []) (e : ℝ) : e ∈ Gen.err
     | (simp only [Gen.errCommon, List.mem_replicate]; exact ⟨by omega, trivial⟩)
     | (simp only [Gen.errCommon, List.mem_map]
        obtain ⟨x, hx'⟩ := List.exists_mem_of_ne_nil xs hx; exact ⟨x, hx', rfl⟩)
+    | simp [Gen.errCommon, hx]
 
 theorem errEach_eq (xs es : List ℝ) : Gen.errEach xs es = es := by
   simp [Gen.errEach]
